@@ -3,7 +3,7 @@ import KitModel.Dir
 /-!
 Driver for property C18: `kitdrv C18` reads op lines on stdin, one answer line per input line.
 
-  reset base=<path>                       fresh world: empty file system, no live Dir
+  reset base=<path> [clock=<n>]           fresh world: empty file system, no live Dir, next version id n
   raw op=<mkdirAll|writeFile|remove|removeIfExists|symlink|rename|removeAll> p=.. [b=hex] [to=..] [o=.. n=..]
   write files=<hexname>:<hexbytes>,...    one complete Write by the live Dir (files in iteration order)
   crash k=<n> files=...                   a Write killed after n fs operations; next Dir is fresh
@@ -56,7 +56,7 @@ def showNode : Node → String
   | .link t => "l:" ++ showPath t
 
 def showTree (fs : FS) : String :=
-  let ents := fs.map fun e => showPath e.1 ++ "|" ++ showNode e.2
+  let ents := (entries fs).map fun e => showPath e.1 ++ "|" ++ showNode e.2
   ";".intercalate (ents.toArray.qsort (· < ·)).toList
 
 def showErr : Option Errno → String
@@ -67,7 +67,10 @@ def showTarget (fs : FS) (B : Path) : String :=
   match resolve fs (target B) with
   | none => if look fs (target B) = none then "absent" else "dangling"
   | some (d, .dir) =>
-    let ents := (readDir fs d).map fun (nm, nd) => showName nm ++ "=" ++ showNode nd
+    -- `dirListing` is the function the bridge theorem `dirListing_iff_DirIs` is about
+    let ents := match dirListing fs d with
+      | some l => l.map fun (nm, b) => showName nm ++ "=" ++ showNode (.file b)
+      | none => (readDir fs d).map fun (nm, nd) => showName nm ++ "=" ++ showNode nd
     "dir:" ++ ",".intercalate (ents.toArray.qsort (· < ·)).toList
   | some _ => "other"
 
@@ -96,7 +99,9 @@ def stepLine (d : DState) (line : String) : DState × String :=
   match l.op with
   | "reset" =>
     match (l.get? "base").bind parsePath with
-    | some B => let d' : DState := { B := B, s := {} }; (d', answer d' none)
+    | some B =>
+      let d' : DState := { B := B, s := { clock := (l.nat? "clock").getD 0 } }
+      (d', answer d' none)
     | none => (d, "bad-input")
   | "raw" =>
     if l.get? "op" == some "remove" then
